@@ -31,6 +31,7 @@ contract('pyx12.rawx12file.RawX12File.__iter__',
                         modifies=['self.buffer', 'self.fd.rest', 'data'])},
          yield_ensures=["yielded_value == token_of(tail, self.seg_term)", "yielded_value != ''"],
          ensures=["self.fd.rest == ''", 'self.seg_term not in self.buffer'],
+         options={'z3_share': 0.15},
          build='build_raw_iter',
          ghost={'replay_ensures': ['result == tokens(whole0, self.seg_term)'],
                 'search': {'self/.buffer': ['', 'A', 'A~', '~', '\nA~', 'A~\n', '~~', ' A~'],
@@ -58,6 +59,7 @@ contract('pyx12.rawx12file.RawX12File.__init__',
                   'len(old(fin.rest)) < 106 or self.subele_term == old(fin.rest)[104]',
                   "len(old(fin.rest)) < 106 or self.repetition_term == (old(fin.rest)[82] if old(fin.rest)[84:89] == '00501' else None)",
                   'self.icvn == old(fin.rest)[84:89]', 'len(self.seg_term) == 1'],
+         options={'prune_rlimit': 100000, 'z3_share': 0.15},
          serves=['C01'],
          note='the delimiters are the characters at the fixed positions of the 106-character header of the WHOLE text, whatever chunks '
               'the stream delivers; nothing of the text is lost (buffer + undelivered text == whole text)')
